@@ -19,6 +19,8 @@ type Scenario struct {
 	// what to do after the connection is up
 	Probe bool     `json:"probe,omitempty"`
 	RPC   *RPCSpec `json:"rpc,omitempty"`
+	// C19: seed the process-global math/rand right before connecting (after the client object exists)
+	ReseedGlobal *int64 `json:"reseed_global,omitempty"`
 	// scheduling
 	GoMaxProcs int    `json:"gomaxprocs,omitempty"`
 	PatienceMs int    `json:"patience_ms,omitempty"`
